@@ -587,12 +587,18 @@ def d_function_with_subgraph(m):
     a2 = onnx.AttributeProto(name="else_branch", type=onnx.AttributeProto.GRAPH)
     a2.g.CopyFrom(else_g)
     f.node.add().CopyFrom(node("Neg", ["hx"], ["ht"], "h_neg"))
-    f.node.add().CopyFrom(node("If", ["hc"], ["ho"], "h_if", attrs=[a1, a2]))
+    # a reference attribute ahead of the attributes that carry the bodies
+    aref = onnx.AttributeProto(name="h_note", type=onnx.AttributeProto.INT, ref_attr_name="h_level")
+    f.attribute.append("h_level")
+    f.node.add().CopyFrom(node("If", ["hc"], ["ho"], "h_if", attrs=[aref, a1, a2]))
     if m.ir_version >= 10:
         f.value_info.add().CopyFrom(value_info("ht", F(_shape_variants()[2]), "fn body doc"))
     else:
         m.graph.value_info.add().CopyFrom(value_info("local::H/ht", F(_shape_variants()[2]), "fn body doc"))
-    m.graph.node.add().CopyFrom(node("H", ["b", "c"], ["h_out"], "n_h", domain="local"))
+    hcall = node("H", ["b", "c"], ["h_out"], "n_h", domain="local")
+    ha = hcall.attribute.add()
+    ha.name, ha.type, ha.i = "h_level", onnx.AttributeProto.INT, 2
+    m.graph.node.add().CopyFrom(hcall)
     m.graph.output.add().CopyFrom(value_info("h_out", F()))
 
 
@@ -710,8 +716,14 @@ def d_device_configuration_in_function_body(m):
     dct.configuration_id = "cfg_fn"
     dct.pipeline_stage = 0
     f.node.add().CopyFrom(top)
-    f.node.add().CopyFrom(node("If", ["sc"], ["so"], "s_if", attrs=[a1, a2]))
-    m.graph.node.add().CopyFrom(node("Sharded", ["b", "c"], ["sharded_out"], "n_sharded", domain="localdc"))
+    # a reference attribute listed BEFORE the attributes that carry the bodies
+    aref = onnx.AttributeProto(name="note", type=onnx.AttributeProto.INT, ref_attr_name="fn_note")
+    f.attribute.append("fn_note")
+    f.node.add().CopyFrom(node("If", ["sc"], ["so"], "s_if", attrs=[aref, a1, a2]))
+    call = node("Sharded", ["b", "c"], ["sharded_out"], "n_sharded", domain="localdc")
+    ca = call.attribute.add()
+    ca.name, ca.type, ca.i = "fn_note", onnx.AttributeProto.INT, 3
+    m.graph.node.add().CopyFrom(call)
     m.graph.output.add().CopyFrom(value_info("sharded_out", F()))
 
 
